@@ -66,6 +66,10 @@ class _TabulationCutoff(object):
     dr = _get_or_none(self._dr_attr, cp_tabulation_section, float)
     cutoff = _get_or_none(self._cutoff_attr, cp_tabulation_section, float)
 
+    for name, v in ((self._dr_attr, dr), (self._cutoff_attr, cutoff)):
+      if not v is None and not math.isfinite(v):
+        raise ConfigParserException("'{}' in [Tabulation] section of potential definition must be a finite number (found '{}').".format(name, v))
+
     if not nr is None and not dr is None and not cutoff is None:
       raise ConfigParserException("'{cutoff}', '{nr}' and '{dr}' cannot all be spcified in [Tabulation] section of potential definition.".format(**self._template_dict))
     elif not nr is None and not dr is None:
